@@ -172,9 +172,10 @@ Definition wf_env (D : tenv) : Prop := forall x d, tlookup D x = Some d -> check
 Lemma sanity_wf_env D : sanity_typedefs D = Ok true -> wf_env D.
 Proof.
   unfold sanity_typedefs. destruct (has_dup (map td_name D)); [discriminate|].
-  destruct (forallb (fun d => check_wf D (td_body d)) D) eqn:E; cbn; [|discriminate].
+  destruct (forallb (fun d => check_wf D (td_body d) && mode_eqb (mode_of (td_body d)) (td_mode d)) D) eqn:E;
+    cbn; [|discriminate].
   intros _ x d H. apply tlookup_In in H. destruct H as [H _].
-  rewrite forallb_forall in E. auto.
+  rewrite forallb_forall in E. apply E in H. apply andb_true_iff in H. tauto.
 Qed.
 
 Lemma head_wf D t h : wf_env D -> head D t h -> check_wf D t = true -> check_wf D h = true.
